@@ -72,9 +72,68 @@ async fn race(k: u64, seed: u64, maxdelay: u64) -> String {
     format!("acked {} set {} stored {}", f(&acked), f(&ids), f(&stored))
 }
 
+/// A replicated write from a peer arrives WHILE the store of a restarting node is still loading its persisted keyspaces
+/// (after the metadata scan of the keyspace, before its state is installed).  The real node, the real store extension.
+async fn startup_race() -> String {
+    use std::sync::atomic::Ordering;
+    use std::time::Duration;
+
+    use datacake_eventual_consistency::verif::{ConsistencyClient, ReplicationClient};
+    use datacake_eventual_consistency::EventuallyConsistentStoreExtension;
+    use datacake_node::{ConnectionConfig, DCAwareSelector, DatacakeNodeBuilder, RpcNetwork};
+
+    use crate::faulty::FaultyStore;
+    type S = FaultyStore<MemStore>;
+
+    let mem = Arc::new(MemStore::default());
+    let seed_clock = Clock::new(9);
+    for id in [1u64, 3] {
+        let doc = Document::new(id, seed_clock.get_time().await, vec![id as u8]);
+        mem.put("ks", doc).await.expect("seed");
+    }
+    let fs = FaultyStore::new(mem.clone());
+    let (gate, reached, gate_meta) = (fs.gate.clone(), fs.reached.clone(), fs.gate_meta.clone());
+    gate_meta.store(true, Ordering::SeqCst);
+    let addr = crate::rpc::free_addr();
+    let node = match DatacakeNodeBuilder::<DCAwareSelector>::new(1, ConnectionConfig::new(addr, addr, Vec::<String>::new())).connect().await {
+        Ok(n) => Arc::new(n),
+        Err(_) => return "startup not-started".into(),
+    };
+    let n2 = node.clone();
+    let t = tokio::spawn(async move { n2.add_extension(EventuallyConsistentStoreExtension::new(fs)).await.map_err(|e| e.to_string()) });
+    let mut waited = 0;
+    while !reached.load(Ordering::SeqCst) && waited < 3000 {
+        tokio::time::sleep(Duration::from_millis(1)).await;
+        waited += 1;
+    }
+    let clock = Clock::new(2);
+    let network = RpcNetwork::default();
+    let mut client = ConsistencyClient::<S>::new(clock.clone(), network.get_or_connect(addr));
+    let doc2 = Document::new(2, clock.get_time().await, vec![2]);
+    let ack = matches!(
+        tokio::time::timeout(Duration::from_secs(3), client.put("ks", doc2, 2, crate::rpc::free_addr())).await,
+        Ok(Ok(()))
+    );
+    gate_meta.store(false, Ordering::SeqCst);
+    gate.notify_waiters();
+    gate.notify_one();
+    let store = match tokio::time::timeout(Duration::from_secs(10), t).await {
+        Ok(Ok(Ok(store))) => store,
+        _ => return format!("startup store-failed ack={}", ack),
+    };
+    let mut rc = ReplicationClient::<S>::new(clock, network.get_or_connect(addr));
+    let visible = match tokio::time::timeout(Duration::from_secs(3), rc.get_state("ks")).await {
+        Ok(Ok((_, set))) => set.get(&2).is_some(),
+        _ => false,
+    };
+    drop(store);
+    format!("startup ack={} visible={}", ack, visible)
+}
+
 impl Domain for GroupDomain {
     fn op(&mut self, t: &[&str]) -> String {
         match t[0] {
+            "startup-race" => crate::rpc::runtime().block_on(startup_race()),
             // race <k> <seed> <maxdelay> <threads>   (threads = 0: current_thread runtime)
             "race" => {
                 let (k, seed, maxdelay, threads) = (p_u64(t[1]), p_u64(t[2]), p_u64(t[3]), p_u64(t[4]));
